@@ -11,7 +11,8 @@ start wishlist rounds), server closing, `remove_request`, search replies with an
 `Timer.reschedule` on a registered request, clock jumps of any size (the loop was busy), loop runs (`settle`),
 SINGLE loop iterations (`tick`), and — round 4 — the environment of a request's set-up: `gate` (from now on
 `send_server_messages` suspends / does not), `sendDone tk ok` (the suspended send of the set-up with ticket `tk`
-returns / raises), `cancelCall tk` (the caller suspended in `search*` is cancelled).  `sleepOps d` is the op list of
+returns / raises), `cancelCall tk` (the caller suspended in `search*` is cancelled), and — round 6 — the loss of the
+server session and the re-login (`sessionDestroyed`, `sessionInitialized`), at any point of a history.  `sleepOps d` is the op list of
 `asyncio.sleep(d)`, `stopOps` that of `stop()`.  All interleavings of these at one instant — including "in the loop
 iteration after the sleep of a timer was over, before its task was resumed" and "while the request is between its
 ticket draw and its registration" — are just different op lists; every theorem below is about all of them.
@@ -500,6 +501,53 @@ theorem C18_armed_unless_cancelled (cfg : Cfg) (ops : List Op) (hw : NoWrap (run
   obtain ⟨t, ht, k1, k2, k3⟩ := hi.handle_task r hr id hid
   exact ⟨t, ht, by rw [hid, k1], k2, k3⟩
 
+/-! ### Round 6: session loss and re-login
+
+`Op.sessionDestroyed` / `Op.sessionInitialized` are ops of every history above, so all theorems of this file — in
+particular `C18_tickets_distinct` — hold across any number of re-logins, with requests, timers and set-ups that live
+through them.  The three statements below say what that rests on. -/
+
+/-- **A session change resets nothing of the search state.**  `_on_session_destroyed` / `_on_session_initialized`
+(manager.py:431-435) report nothing and leave the ticket counter, the draw count, the registry, the timer tasks, the
+set-ups in progress and the wishlist state exactly as they were; only `_session` changes. -/
+theorem C18_session_change_resets_nothing (s : State) (op : Op)
+    (hop : op = .sessionDestroyed ∨ op = .sessionInitialized) :
+    (step s op).2 = [] ∧ (step s op).1.gen = s.gen ∧ (step s op).1.draws = s.draws ∧
+    (step s op).1.requests = s.requests ∧ (step s op).1.tasks = s.tasks ∧ (step s op).1.pending = s.pending ∧
+    (step s op).1.wlInterval = s.wlInterval ∧ (step s op).1.wlNext = s.wlNext ∧ (step s op).1.now = s.now ∧
+    (step s op).1.session = decide (op = .sessionInitialized) := by
+  rcases hop with rfl | rfl <;> exact ⟨rfl, rfl, rfl, rfl, rfl, rfl, rfl, rfl, rfl, rfl⟩
+
+/-- **The next ticket is fresh — whatever happened before, re-logins included.**  After any history (with any number
+of session losses and logins at any point) the ticket the generator hands out next is held neither by a registered
+request nor by a request that is being set up, as long as that draw does not wrap the generator. -/
+theorem C18_next_ticket_fresh (cfg : Cfg) (ops : List Op)
+    (hw : (run (init cfg) ops).1.cfg.initial + (run (init cfg) ops).1.draws + 1 ≤ maxTicket) :
+    (∀ r ∈ (run (init cfg) ops).1.requests,
+        r.ticket ≠ nextTicket (run (init cfg) ops).1.cfg.initial (run (init cfg) ops).1.gen) ∧
+    (∀ p ∈ (run (init cfg) ops).1.pending,
+        p.ticket ≠ nextTicket (run (init cfg) ops).1.cfg.initial (run (init cfg) ops).1.gen) := by
+  have hnw : NoWrap (run (init cfg) ops).1 := by unfold NoWrap; omega
+  have hi := reach_inv cfg ops hnw
+  rw [hi.inv.gen_eq, nextTicket_nowrap _ _ hw]
+  refine ⟨fun r hr => ?_, fun p hp => ?_⟩
+  · have := hi.inv.req_tk r hr
+    omega
+  · have := hi.pinv.pend_tk p hp
+    omega
+
+/-- **Requests that outlive their session keep their ticket to themselves.**  `before` is any history of the first
+session, `mid` whatever happens while logged out, `later` the next session (each may contain further session changes):
+the requests registered at the end — survivors of the first session and new ones alike — have pairwise distinct
+tickets, and no registration of the whole history replaced a live request. -/
+theorem C18_relogin_tickets_distinct (cfg : Cfg) (before mid later : List Op)
+    (hw : NoWrap (run (init cfg) (before ++ .sessionDestroyed :: (mid ++ .sessionInitialized :: later))).1) :
+    (∀ r1 ∈ (run (init cfg) (before ++ .sessionDestroyed :: (mid ++ .sessionInitialized :: later))).1.requests,
+     ∀ r2 ∈ (run (init cfg) (before ++ .sessionDestroyed :: (mid ++ .sessionInitialized :: later))).1.requests,
+        r1.ticket = r2.ticket → r1 = r2) ∧
+    ∀ a b, Obs.clobber a b ∉ (run (init cfg) (before ++ .sessionDestroyed :: (mid ++ .sessionInitialized :: later))).2 :=
+  C18_tickets_distinct cfg _ hw
+
 /-! ### Non-vacuity: the hypotheses are met by non-trivial reachable states -/
 
 def cfg0 : Cfg := { requestTimeout := 5, wishlistTimeout := -1, storeResults := true, initial := 1, items := 2 }
@@ -566,5 +614,18 @@ example : (run (init cfg0) [.gate true, .search .user, .wlInterval 4, .tick]).1.
 example : (run (init cfg0) sdemo).2 = [.sent 0 2 3, .result 0 2 3, .removed 4 2 3 4 0] := by decide
 example : (run (init cfg0) sdemo).1.requests = [] ∧ (run (init cfg0) sdemo).1.pending = [] := by decide
 example : NoWrap (run (init cfg0) sdemo).1 := by unfold NoWrap; decide
+
+/-- round 6: a request without a timeout and one with a long one live through a session loss and a re-login; the
+searches of the next session get the NEXT tickets; replies still find the survivors -/
+def rdemo : List Op :=
+  [.search .network, .wlInterval 9, .settle, .serverClosing, .sessionDestroyed, .jump 2, .settle, .sessionInitialized,
+   .wlInterval 9, .search .user, .settle, .reply 2, .reply 5]
+
+example : NoWrap (run (init cfg0) rdemo).1 := by unfold NoWrap; decide
+example : (run (init cfg0) rdemo).1.requests.map (·.ticket) = [2, 3, 4, 5, 6, 7] := by decide
+example : (run (init cfg0) rdemo).1.session = true ∧
+    (run (init cfg0) [.search .network, .sessionInitialized, .sessionDestroyed]).1.session = false := by decide
+example : (run (init cfg0) rdemo).2.filter (fun o => match o with | .result _ _ _ => true | _ => false) =
+    [.result 2 1 2, .result 2 4 5] := by decide
 
 end AioslskVerif.C18
